@@ -86,6 +86,12 @@ pub fn common(sc: &Scenario, h: &History, signed: &Signeds, out: &mut Outcome) {
             },
             1,
         );
+        match &sc.ops[i] {
+            Op::Observe if r.is_ok() => out.count("hist.observer_calls", 1),
+            Op::ForkClone => out.count("hist.clone_handovers", 1),
+            Op::Out(o) if o.form != 0 && r.is_ok() => out.count("hist.outputs_decoded_from_bytes", 1),
+            _ => {}
+        }
         let is_bal = matches!(sc.ops[i], Op::Change(_) | Op::SelectAndChange(..) | Op::SelectChangeCollateral(..) | Op::Select(..));
         if is_bal {
             if balancing_seen > 0 && prev_balancing_failed {
@@ -149,6 +155,10 @@ pub fn common(sc: &Scenario, h: &History, signed: &Signeds, out: &mut Outcome) {
             }
             let nin = v.inputs_of(0).map(|x| x.len()).unwrap_or(0);
             let nout = v.outputs().map(|x| x.len()).unwrap_or(0);
+            let on_edge = |n: usize| n == 23 || n == 24;
+            if on_edge(nin) || on_edge(nout) || on_edge(v.certs().map(|x| x.len()).unwrap_or(0)) {
+                out.count("built.collection_on_23_24_edge", 1);
+            }
             for x in [keys_present, ws_present, cert_tags, head_class(nin), head_class(nout), width_class(v.fee().unwrap_or(0)), !v.aux().is_null() as u64] {
                 sig = mix(sig, x);
             }
@@ -238,14 +248,25 @@ pub fn undeclared_ref_scripts(sc: &Scenario, h: &History, upto: usize) -> BTreeS
     let certs_from = last_of(&|o| matches!(o, Op::RemoveCerts | Op::SetCertsLegacy));
     let wdrs_from = last_of(&|o| matches!(o, Op::RemoveWithdrawals | Op::SetWithdrawalsLegacy));
     let mint_from = last_of(&|o| matches!(o, Op::RemoveMint));
+    let mut seen_mint: BTreeSet<ScriptId> = BTreeSet::new();
+    let mut seen_voter: BTreeSet<String> = BTreeSet::new();
     for (i, op) in sc.ops.iter().enumerate() {
-        if i >= upto || !h.results[i].is_ok() {
+        if i >= upto {
+            continue;
+        }
+        if !h.results[i].is_ok() {
+            // mint-and-output refused by its output half: the mint half (and its script source) is in
+            if let (Op::MintAndOut { script, .. }, Res::Err(e)) = (op, &h.results[i]) {
+                if i >= mint_from && (e.contains("minimum UTXO value") || e.contains("Maximum value size")) {
+                    seen_mint.insert(*script);
+                }
+            }
             continue;
         }
         match op {
             Op::Cert(..) if i < certs_from => continue,
             Op::Wdr(..) if i < wdrs_from => continue,
-            Op::Mint { .. } if i < mint_from => continue,
+            Op::Mint { .. } | Op::MintAndOut { .. } | Op::MintLegacy { .. } if i < mint_from => continue,
             _ => {}
         }
         let wit = match op {
@@ -257,10 +278,29 @@ pub fn undeclared_ref_scripts(sc: &Scenario, h: &History, upto: usize) -> BTreeS
                 declared.insert(*u);
                 None
             }
-            Op::InScript { wit, .. } | Op::InScriptThenRegular { wit, .. } => Some(wit),
+            // (the mistaken attachment of a correction history is replaced at once: it declares nothing)
+            Op::InScript { wit, .. } => Some(wit),
             Op::Cert(_, Some(w)) | Op::Wdr(_, _, Some(w)) | Op::Propose(_, Some(w)) => Some(w),
-            Op::Mint { wit, .. } => Some(wit),
-            Op::Vote { wit: Some(w), .. } => Some(w),
+            // the mint builder keeps one script source per policy and the voting builder one per
+            // voter: only the source of the first successful call is kept by the library
+            Op::Mint { wit, .. } => {
+                if seen_mint.insert(wit.script) {
+                    Some(wit)
+                } else {
+                    None
+                }
+            }
+            Op::MintAndOut { script, .. } | Op::MintLegacy { script, .. } => {
+                seen_mint.insert(*script);
+                None
+            }
+            Op::Vote { wit: Some(w), voter, .. } => {
+                if seen_voter.insert(format!("{:?}", voter)) {
+                    Some(w)
+                } else {
+                    None
+                }
+            }
             _ => None,
         };
         if let Some(w) = wit {
